@@ -3,6 +3,7 @@
 //! (it cannot call it), which makes the independence of the oracles structural.
 
 pub mod build;
+pub mod collide;
 pub mod engine;
 pub mod json;
 pub mod record;
